@@ -441,6 +441,9 @@ def _df_elements(df):
 
 def _df_elements_all_equal_or_same(df1, df2):
     """Returns True if all corresponding elements are equal or 'the same' in both data frames."""
+    if df1.shape != df2.shape:
+        # zip() below would stop at the shorter frame
+        return False
     try:
         return all(_equal_or_same(x1, x2) for x1, x2 in zip(_df_elements(df1), _df_elements(df2)))
     except Exception:
